@@ -10,9 +10,11 @@ import (
 // Size-sequence sweep: the variable-length arrays of a trie (leaf values, leaf
 // tails, inner prefixes) are laid out from the SEQUENCE of element sizes. This
 // enumerates every size tuple over a small range:
-//  (a) String16 values of lengths {0..3}^n, n <= 6, on a fixed key set;
-//  (b) leaf tails of lengths {0..3}^n, n <= 6 (keys = one distinct byte + tail);
-//  (c) inner prefixes of lengths {0..2}^n, n <= 5 (pairs of keys below a distinct first byte).
+//
+//	(a) String16 values of lengths {0..3}^n, n <= 6, on a fixed key set;
+//	(b) leaf tails of lengths {0..3}^n, n <= 6 (keys = one distinct byte + tail);
+//	(c) inner prefixes of lengths {0..2}^n, n <= 5 (pairs of keys below a distinct first byte).
+//
 // Each shape is checked with the oracles of C01, C02, C09 and C10 (and C03/C04 in Complete mode).
 func sizeSweepCases(shard, nshards int, visit func(c *Case, what string)) {
 	n := 0
